@@ -594,6 +594,7 @@ Definition spec_lca (p : poset) (x y : nat) : list nat :=
 Record entry := {
   e_types : list nat;            (* spec.edge_types (interned names) *)
   e_prop : option nat;           (* spec.measure.property *)
+  e_label : option nat;          (* spec.measure.label (interned); None = not restricted *)
   e_elig : option (list nat);    (* measure_nodes: dense indices carrying the measure label at
                                     build time; None = measure not restricted to a label *)
   e_index : option index;        (* None = declined *)
@@ -603,43 +604,53 @@ Definition usable (e : entry) : bool :=
   match e_index e with Some _ => negb (e_stale e) | None => false end.
 
 Definition e_with (e : entry) (ix : option index) (st : bool) : entry :=
-  {| e_types := e_types e; e_prop := e_prop e; e_elig := e_elig e; e_index := ix; e_stale := st |}.
+  {| e_types := e_types e; e_prop := e_prop e; e_label := e_label e; e_elig := e_elig e;
+     e_index := ix; e_stale := st |}.
 
 Inductive mop :=
 | MEdgeWrite (ty : nat)                              (* create/delete edge of this type *)
 | MMeasureWrite (prop node : nat) (v : option Z)     (* set property; node = dense index, or >= n when outside *)
-| MPropRemove (prop node : nat)                      (* GraphStore::remove_node_property: the manager
-                                                        is NOT notified (known finding) *)
+| MPropRemove (prop node : nat)                      (* GraphStore::remove_node_property: reaches the
+                                                        manager as a write of Null *)
+| MLabelWrite (lab : nat)                            (* add_label_to_node / remove_label_from_node *)
 | MRebuild (fresh : option index) (elig : option (list nat)).  (* the entry produced by build_entry *)
 
 Definition eligible (e : entry) (node : nat) : bool :=
   match e_elig e with None => true | Some l => memn node l end.
 
+Definition measure_write (e : entry) (prop node : nat) (v : option Z) : entry :=
+  match e_prop e with
+  | Some pr =>
+      if Nat.eqb pr prop then
+        match e_index e with
+        | Some ix =>
+            if node <? pn (ix_poset ix) then
+              if eligible e node then
+                match update_measure ix node v with
+                | Some ix' => e_with e (Some ix') (e_stale e)
+                | None => e_with e (e_index e) true
+                end
+              else e            (* hierarchy node without the measure label: not part of the measure *)
+            else e_with e (e_index e) true
+        | None => e_with e None true
+        end
+      else e
+  | None => e
+  end.
+
 Definition m_step (e : entry) (o : mop) : entry :=
   match o with
   | MEdgeWrite ty => if memn ty (e_types e) then e_with e (e_index e) true else e
-  | MMeasureWrite prop node v =>
-      match e_prop e with
-      | Some pr =>
-          if Nat.eqb pr prop then
-            match e_index e with
-            | Some ix =>
-                if node <? pn (ix_poset ix) then
-                  if eligible e node then
-                    match update_measure ix node v with
-                    | Some ix' => e_with e (Some ix') (e_stale e)
-                    | None => e_with e (e_index e) true
-                    end
-                  else e            (* hierarchy node without the measure label: not part of the measure *)
-                else e_with e (e_index e) true
-            | None => e_with e None true
-            end
-          else e
+  | MMeasureWrite prop node v => measure_write e prop node v
+  | MPropRemove prop node => measure_write e prop node None
+  | MLabelWrite lab =>
+      match e_label e with
+      | Some l => if Nat.eqb l lab then e_with e (e_index e) true else e
       | None => e
       end
-  | MPropRemove _ _ => e
   | MRebuild fresh elig =>
-      {| e_types := e_types e; e_prop := e_prop e; e_elig := elig; e_index := fresh; e_stale := false |}
+      {| e_types := e_types e; e_prop := e_prop e; e_label := e_label e; e_elig := elig;
+         e_index := fresh; e_stale := false |}
   end.
 
 (* ghost: the measure the graph currently holds for the index's nodes (dense-indexed, label
@@ -658,6 +669,8 @@ Definition g_step (e : entry) (g : list (option Z)) (o : mop) : list (option Z) 
       | Some pr => if Nat.eqb pr prop && eligible e node then upd g node None else g
       | None => g
       end
+  | MLabelWrite _ => g      (* a write of the measure label makes the entry stale; the ghost is
+                               re-read from the graph at the next rebuild *)
   | MRebuild fresh _ =>
       match fresh with
       | Some ix => match ix_measure ix with Some m => m | None => g end
@@ -673,19 +686,6 @@ Fixpoint mg_run (e : entry) (g : list (option Z)) (ops : list mop) : entry * lis
 
 Definition synced (e : entry) (g : list (option Z)) : Prop :=
   usable e = true -> exists ix, e_index e = Some ix /\ ix_measure ix = Some g.
-
-(* the known class: histories in which remove_node_property hits the declared measure property of
-   a node that is part of the measure (followed along the run: eligibility changes at a rebuild) *)
-Definition removes_measure_at (e : entry) (o : mop) : bool :=
-  match o, e_prop e with
-  | MPropRemove prop node, Some pr => Nat.eqb pr prop && eligible e node
-  | _, _ => false
-  end.
-Fixpoint Known_C28 (e : entry) (ops : list mop) : bool :=
-  match ops with
-  | [] => false
-  | o :: r => removes_measure_at e o || Known_C28 (m_step e o) r
-  end.
 
 (* ---------- correspondence cases ---------- *)
 Inductive step :=
@@ -708,6 +708,7 @@ Inductive hstep :=
 | HEdgeWrite (covering : bool)                                  (* create/delete of an edge *)
 | HPropWrite (is_measure : bool) (node : N) (v : option Z)      (* set_column_property *)
 | HPropRemove (is_measure : bool) (node : N)                    (* remove_node_property *)
+| HLabelWrite (is_measure_label : bool)                         (* add/remove of a label on a node *)
 | HRebuild (edges : list (N * N)) (elig : option (list N)) (measure : list (N * option Z)).
   (* graph as read by rebuild: IS_A edges, ids carrying the measure label (None = unrestricted),
      raw column values *)
@@ -811,6 +812,8 @@ Definition h_step (ops : list rop) (s : mstate) (h : hstep) : mstate :=
   | HPropRemove ism node =>
       {| ms_ids := ms_ids s;
          ms_entry := m_step (ms_entry s) (MPropRemove (if ism then 0 else 1) (dense_of s node)) |}
+  | HLabelWrite isl =>
+      {| ms_ids := ms_ids s; ms_entry := m_step (ms_entry s) (MLabelWrite (if isl then 0 else 1)) |}
   | HRebuild edges elig measure =>
       match build_entry edges elig measure ops with
       | Some (ids, ix, el) => {| ms_ids := ids; ms_entry := m_step (ms_entry s) (MRebuild ix el) |}
@@ -849,8 +852,9 @@ Definition check_case (c : case) : bool :=
       match build_entry edges elig measure ops with
       | Some (ids, ix, el) =>
           let s := {| ms_ids := ids;
-                      ms_entry := {| e_types := [0]; e_prop := Some 0; e_elig := el;
-                                     e_index := ix; e_stale := false |} |} in
+                      ms_entry := {| e_types := [0]; e_prop := Some 0;
+                                     e_label := match elig with Some _ => Some 0 | None => None end;
+                                     e_elig := el; e_index := ix; e_stale := false |} |} in
           obs_ok s o0 && check_hist ops s hist
       | None => false
       end
